@@ -16,22 +16,22 @@ ALL_IDS = ["C%02d" % i for i in range(1, 21)]
 
 # property id -> spec
 PROPS = {}
+HOOK_COMMITS = []
 
 
 def prop(pid, **kw):
     PROPS[pid] = kw
 
 
-prop("C13",
-     level="proof",
-     technique="Lean 4 theorems over a mirror of the WriteContents/ReadContents loops (induction over reader chunks) + differential correspondence of WriteAt logs + regenerated width facts",
-     engines=[dict(name="partio")],
-     rule="seeded geometries (GPT/MBR x logical 512/4096 x physical 512/1024/4096 x start below/at/above the 4 GiB byte boundary) x reader shorter/equal/longer x odd-sized pieces; a case is non-trivial when a table was written and read back and data moved; distinct = distinct canonical descriptions",
-     text="Every theorem quantifies over all starts/sizes (unbounded naturals), all chunkings and all prior device contents: writes stay inside the partition, success iff exactly size bytes were supplied, the partition then holds exactly those bytes, ReadContents returns exactly the partition, CopyPartitionRaw leaves the target's leading bytes equal to the source. The model is tied to the Go loops by comparing the real WriteAt log with the model's write list on every generated case and by regenerated arithmetic-width facts; a direct oracle on the real code (device bytes before/after) is the violation search.",
-     note="Trusted: the io.Pipe/goroutine in CopyPartitionRaw is modelled as sequential composition; GPT uint64 products are assumed not to wrap (start*lss < 2^64); harness + memdev; Lean kernel. Theorems are about the model; the correspondence run samples the tie.",
-     design_ref="5/C13",
-     assumptions=["io.Pipe in CopyPartitionRaw modelled sequentially", "device returns full reads inside its size (memdev)", "GPT start*lss < 2^64"],
-     )
+def _load():
+    import importlib.util, glob
+    d = os.path.join(os.path.dirname(os.path.abspath(__file__)), "props")
+    for f in sorted(glob.glob(os.path.join(d, "C*.py"))):
+        spec = importlib.util.spec_from_file_location("props_" + os.path.basename(f)[:-3], f)
+        m = importlib.util.module_from_spec(spec)
+        m.prop = prop
+        spec.loader.exec_module(m)
+        HOOK_COMMITS.extend(getattr(m, "HOOK_COMMITS", []))
 
 
 def manifest():
@@ -71,7 +71,6 @@ def manifest():
 
 
 NOT_YET = {}
-HOOK_COMMITS = []
 
 
 def write_manifest(verif):
@@ -79,3 +78,6 @@ def write_manifest(verif):
     with open(os.path.join(verif, "MANIFEST.json"), "w") as f:
         json.dump(m, f, indent=1)
     print(f"MANIFEST.json: {len(m['checks'])} checks, {len(m['not_applicable'])} not_applicable")
+
+
+_load()
